@@ -183,6 +183,20 @@ def run_case(case):
                             return {"what": f"{tag}: kept row is not best-scoring"}
                         if not any([v for k, v in enumerate(g) if k != I["object_id"]] == [v for k, v in enumerate(c) if k != I["object_id"]] for c in cands):
                             return {"what": f"{tag}: another field of a row changed"}
+                    # each input's grouping is kept (one common object-number offset per input) and object numbers of different inputs do not collide
+                    # (judged on the kept rows that stem from exactly one input)
+                    strip = lambda row: tuple(v for k, v in enumerate(row) if k != I["object_id"])
+                    owner, shift = {}, {}
+                    for g in got:
+                        src = [(j, row) for j, s in enumerate(snap) for row in s if strip(row) == strip(g)]
+                        js = set(j for j, _ in src)
+                        if len(js) == 1 and len(set(row[I["object_id"]] for _, row in src)) == 1:
+                            j, row = src[0]
+                            d = g[I["object_id"]] - row[I["object_id"]]
+                            if shift.setdefault(j, d) != d:
+                                return {"what": f"{tag}: grouping of input {j} not kept (object ids shifted unevenly)"}
+                            if owner.setdefault(g[I["object_id"]], j) != j:
+                                return {"what": f"{tag}: object number {g[I['object_id']]} collides across inputs {owner[g[I['object_id']]]} and {j}"}
                 m = r
                 model = got
             exp = model
